@@ -176,10 +176,43 @@ def step (d : DS) (op implObs : String) : DS × String × List String :=
     | _ => (d, "bad-kind", generic)
   | _ => (d, "bad-op", [])
 
+/-- The delay a failure reply's `retry in` (minutes, a decimal string) asks for, in nanoseconds, as the repaired
+`tracker.RetryIn` computes it: nothing for anything but a positive decimal number that fits an int, at most a day. -/
+def retryInNs (s : String) : Nat :=
+  -- strconv.Atoi: an optional sign, then decimal digits only
+  let s := if s.startsWith "+" then (s.drop 1).toString else s
+  if s.isEmpty ∨ !s.toList.all Char.isDigit then 0
+  else
+    let n := s.toNat!
+    if n = 0 ∨ n > 9223372036854775807 then 0 else (min n 1440) * 60000000000
+
+/-- `step` on an observation that may carry ` ri=<ns>` (the `RetryIn` of a `*tracker.Error`).  Oracle (C15 pacing
+after a failure reply, C16 bounded back-off): the delay the client takes from a failure reply is the one the
+tracker asked for, in whole minutes, and never more than a day — whatever digits the reply contains. -/
+def stepRi (d : DS) (op implObs : String) : DS × String × List String :=
+  let itoks := words implObs
+  match itoks.find? (·.startsWith "ri=") with
+  | none => step d op implObs
+  | some tok =>
+    let base := " ".intercalate (itoks.filter (· ≠ tok))
+    let (d', m, viol) := step d op base
+    let toks := words op
+    let ri := (tok.drop 3).toString
+    let known := toks.any (·.startsWith "rs=")
+    let want := retryInNs (String.ofList ((unhex! (kvStr toks "rs")).map Char.ofNat))
+    let inRange := ri = "0" ∨ (ri.toList.all Char.isDigit ∧ 60000000000 ≤ ri.toNat! ∧ ri.toNat! ≤ 86400000000000)
+    let v :=
+      if known ∧ toks.head? = some "http" ∧ kvStr toks "kind" = "fail" ∧ m = "err:tracker" ∧ ri ≠ toString want then
+        [s!"C15 retry-delay-not-what-the-tracker-asked-for got={ri} want={want}", s!"C16 retry-delay-not-what-the-tracker-asked-for got={ri} want={want}"]
+      else if !inRange then [s!"C15 retry-delay-out-of-range got={ri}", s!"C16 retry-delay-out-of-range got={ri}"]
+      else []
+    let d' := if ri ≠ "0" then addTag (addTag d' "branch:retry-in") "nontrivial" else d'
+    (d', m ++ " " ++ tok, viol ++ v)
+
 def suite : Suite where
   name := "replies"
   runCase ops :=
-    let (st, rs) := foldCase ({} : DS) step ops
+    let (st, rs) := foldCase ({} : DS) stepRi ops
     (rs, st.tags.reverse)
 
 end Driver.Suites.Replies
